@@ -34,6 +34,7 @@ class _StubPool:
 
 
 _probe_cache = {}
+PROBE_ERRORS = {}      # probe key -> exception raised by the real Container while running the operator alone
 
 
 def probe_script(segs, cpus, tps):
@@ -62,7 +63,11 @@ def probe_script(segs, cpus, tps):
     while not c.is_completed():
         del rec[:]
         before = c.get_current_memory_usage()
-        c.tick()
+        try:
+            c.tick()
+        except Exception as e:      # the operator cannot even run alone: remember why, keep what was observed
+            PROBE_ERRORS[key] = f'{type(e).__name__}: {e}'[:160]
+            break
         # the demand of the tick is the first value the container sets in it (a completing container sets a
         # second one, 0.0, when it marks itself completed); a tick without any update keeps the old value
         script.append(rec[0] if rec else before)
@@ -313,6 +318,13 @@ def gen_tick(rng, run, bad=None):
         cs = [(run.cid(c), pi) for pi, p in enumerate(ex.pools) for c in p.suspending_containers]
         if cs:
             tick['susp'].insert(rng.randrange(len(tick['susp']) + 1), rng.choice(cs))
+    elif bad == 'susp-suspended':
+        # a stale request for a container whose write-out has FINISHED, in the same batch that re-assigns its work
+        cs = [(run.cid(c), pi, c) for pi, p in enumerate(ex.pools) for c in p.suspended_containers]
+        if cs:
+            cid, pi, c = rng.choice(cs)
+            tick['susp'].insert(rng.randrange(len(tick['susp']) + 1), (cid, pi))
+            tick['_reassign'] = [w.gid[o] for o in c.operators if st[w.gid[o]] == 0]
     elif bad == 'susp-badpool':
         cs = [run.cid(c) for p in ex.pools for c in p.active_containers]
         cid = rng.choice(cs) if cs else rng.randrange(5)
@@ -325,6 +337,15 @@ def gen_tick(rng, run, bad=None):
     # assignments
     taken = set()
     avail = [[p.avail_cpu_pool, p.avail_ram_pool] for p in ex.pools]
+    re = tick.pop('_reassign', None)
+    if re and all(st[w.gid[q]] == 4 or w.gid[q] in re for o in re for q in w.ops[o].parents):
+        pool = rng.randrange(r['npools'])
+        if avail[pool][0] >= 1 and (r['over'] or avail[pool][1] >= 0.25):
+            ram = min(avail[pool][1], 4.0) if not r['over'] else r['ram']
+            tick['asg'].append([re if r['multi'] else re[:1], 1, ram, PRIO_VAL[w.ops[re[0]].pipeline.priority], pool])
+            taken.update(tick['asg'][-1][0])
+            avail[pool][0] -= 1
+            avail[pool][1] -= ram
     for _ in range(rng.choice([0, 1, 1, 2, 3])):
         ready = [i for i, o in enumerate(w.ops) if (st[i] == 0 or (st[i] == 5 and rng.random() < 0.4))
                  and i not in taken and all(st[w.gid[q]] == 4 for q in o.parents)]
@@ -397,6 +418,8 @@ def gen_tick(rng, run, bad=None):
             a[1] = rng.choice([0, -1])
         elif bad == 'asg-ram0':
             a[2] = 0
+        elif bad == 'asg-dup-op':
+            a[0] = a[0] + [rng.choice(a[0])]          # one request naming an operator twice
         elif bad == 'asg-busy':
             done = [i for i in range(len(st)) if st[i] in (1, 2, 3, 4)]
             if done:
@@ -452,9 +475,9 @@ def gen_tick(rng, run, bad=None):
     return tick
 
 
-BAD_KINDS = ['susp-mid', 'susp-dup', 'susp-unknown', 'susp-suspending', 'susp-wrongpool', 'susp-badpool', 'asg-cpu+1', 'asg-ram+',
+BAD_KINDS = ['susp-mid', 'susp-dup', 'susp-unknown', 'susp-suspending', 'susp-suspended', 'susp-wrongpool', 'susp-badpool', 'asg-cpu+1', 'asg-ram+',
              'asg-pool', 'asg-empty', 'asg-cpu0', 'asg-ram0', 'asg-busy', 'asg-parent', 'asg-order', 'asg-two',
-             'asg-early-reuse']
+             'asg-early-reuse', 'asg-dup-op']
 
 
 def gen_history(rng, gen='G-exec', overcommit=None, max_ticks=None, p_bad=0.3, bad_kinds=None, bad_early=False,
@@ -473,6 +496,10 @@ def gen_history(rng, gen='G-exec', overcommit=None, max_ticks=None, p_bad=0.3, b
         if bad_at is not None and bad_kind == 'asg-early-reuse' and i < bad_at and \
                 any(c._suspend_ticks_left == 1 for p in run.ex.pools for c in p.suspending_containers):
             bad_at = i            # a write-out ends in this tick
+        if bad_at is not None and bad_kind == 'susp-suspended' and i < bad_at and rng.random() < 0.5 and \
+                any(any(st_ == 0 for st_ in [run.w.states()[run.w.gid[o]] for o in c.operators])
+                    for p in run.ex.pools for c in p.suspended_containers):
+            bad_at = i            # suspended work is waiting to be re-assigned
         if bad_at is not None and bad_kind == 'susp-suspending' and i < bad_at and rng.random() < 0.5 and \
                 any(p.suspending_containers for p in run.ex.pools):
             bad_at = i            # a write-out is in progress now: ask for that container's suspension
